@@ -39,7 +39,7 @@ RULE = (
     "histories = operation sequences over {write, write keeping an old mtime, delete, rename, touch, swap, set exclusions, other-version cache, "
     "alter cache entry, scan} on 6 paths x 5 contents: (a) every sequence of 1..2 (thorough 3) operations from a "
     "reduced alphabet followed by a scan, with and without a scan after the first operation, from an initial scanned "
-    "tree (enumerated once each); (b) Hypothesis RuleBasedStateMachine histories of up to 25 (thorough 50) steps. "
+    "tree (enumerated once each); (b) Hypothesis RuleBasedStateMachine histories of up to 25 (thorough 50) steps; (c) fixed histories around a source file larger than 64 KiB. "
     "Non-trivial = at least two scans with a content-changing operation between them; distinct by digest of the history"
 )
 ASSUMPTIONS = [
